@@ -2,6 +2,7 @@
 From Coq Require Import List NArith ZArith Bool Strings.Byte Strings.String.
 Import ListNotations.
 Require Import Params Iauth IauthFacts.
+Require QueryWhen Mon01 Stray.
 Local Open Scope list_scope.
 
 (* the lines of a query pass are exactly, in slot order, the query lines of every configured service whose
@@ -26,3 +27,63 @@ Theorem shapeless_password_not_forwarded : forall tb r t,
   (more r =? 0)%N || negb (nonempty (pw r)) = true -> ~ well_shaped t -> password tb r t = (r, [], []).
 Proof. exact password_shape. Qed.
 Print Assumptions shapeless_password_not_forwarded.
+
+(* "exactly when the data its protocol needs is known ... not earlier and not skipped", in three layers.
+   (1) what a pass writes: the query lines, computed from the client's own record r, of exactly the occupied, configured slots that
+       are not skipped - evaluated on r itself, in slot order *)
+Theorem pass_asks_exactly_the_eligible_services : forall ss is_pw r,
+  qspec ss 0 is_pw r =
+  flat_map (fun ks => query_lines (s_name (snd ks)) (s_type (snd ks)) r)
+           (filter (fun ks => s_conf (snd ks) && negb (skip_query (s_type (snd ks)) (fst ks) is_pw r)) (QueryWhen.indexed ss)).
+Proof. exact QueryWhen.query_lines_iff. Qed.
+Print Assumptions pass_asks_exactly_the_eligible_services.
+
+(* (2) what "not skipped" means: the data the protocol needs is known, login-type protocols have a stored (well-shaped) password,
+       and the service was not asked before - except that a new password asks non-dronecheck services again *)
+Theorem eligibility_is_the_documented_condition : forall t k is_pw r,
+  skip_query t k is_pw r = false <->
+  prereq_ok t r = true /\ (is_loginish t = true -> nonempty (pw r) = true) /\
+  (N.testbit (sent r) k = false \/ (is_pw = true /\ is_drone t = false)).
+Proof. exact QueryWhen.skip_query_meaning. Qed.
+Print Assumptions eligibility_is_the_documented_condition.
+
+Theorem needed_data_per_protocol : forall t r,
+  prereq_ok t r = true <->
+  match t with
+  | Login => f_pass r = true
+  | LoginIpr => f_host r = true /\ f_ident r = true /\ f_pass r = true
+  | Drone | Combined => f_host r = true /\ f_ident r = true /\ f_nick r = true /\ f_user r = true
+  end.
+Proof. exact QueryWhen.prereq_ok_meaning. Qed.
+Print Assumptions needed_data_per_protocol.
+
+(* (3) on a whole input line about a live client (r1 = the record after the line's own update): NOT SKIPPED - an eligible configured
+       service's query is among the lines of that very step; NOT EARLIER - every query line of the step belongs to such a service *)
+Theorem eligible_service_is_queried_in_that_step : forall c s id argv r r1 n sv,
+  with_xq c = true -> lookup id (reqs s) = Some r ->
+  beq (cmdchar argv) x43 = false -> beq (cmdchar argv) x58 || beq (cmdchar argv) x78 = false ->
+  Stray.handle c (tb s) r argv = Stray.HFin (QueryWhen.aft_res c (tb s) r1) ->
+  nth_error (slots (tb s)) n = Some (Some sv) -> s_conf sv = true -> skip_query (s_type sv) (N.of_nat n) false r1 = false ->
+  incl (query_lines (s_name sv) (s_type sv) r1) (snd (step c s id argv)).
+Proof. exact QueryWhen.queried_in_that_step. Qed.
+Print Assumptions eligible_service_is_queried_in_that_step.
+
+Theorem query_only_when_data_known : forall c s id argv r r1 nm i sr pl,
+  lookup id (reqs s) = Some r ->
+  beq (cmdchar argv) x43 = false -> beq (cmdchar argv) x58 || beq (cmdchar argv) x78 = false ->
+  Stray.handle c (tb s) r argv = Stray.HFin (QueryWhen.aft_res c (tb s) r1) ->
+  In (OX nm i sr pl) (snd (step c s id argv)) ->
+  with_xq c = true /\
+  exists n sv, nth_error (slots (tb s)) n = Some (Some sv) /\ s_conf sv = true /\
+               skip_query (s_type sv) (N.of_nat n) false r1 = false /\
+               In (OX nm i sr pl) (query_lines (s_name sv) (s_type sv) r1).
+Proof. exact QueryWhen.query_only_when_known. Qed.
+Print Assumptions query_only_when_data_known.
+
+(* "or the server says hurry up": after H every piece of registration data counts as known *)
+Theorem hurry_up_makes_data_known : forall c s id argv r r',
+  with_xq c = true -> Mon01.NoDupIds (reqs s) -> lookup id (reqs s) = Some r -> cmdchar argv = x48 ->
+  lookup id (reqs (fst (step c s id argv))) = Some r' ->
+  f_host r' = true /\ f_ident r' = true /\ f_nick r' = true /\ f_user r' = true.
+Proof. exact QueryWhen.hurry_up_makes_data_known. Qed.
+Print Assumptions hurry_up_makes_data_known.
